@@ -14,7 +14,7 @@ from c03 import o_glob, o_lower, swapcase_irc
 PROPERTY = 'C04'
 MANIFEST = {
  'level_text': 'Lean 4 theorems about a model of ircdb.UsersDictionary (user records, hostmask sets, logins with timeout, _hostmaskCache and _nameCache with the CacheDict clear-when-full behaviour), kernel-checked: for every history of register / hostmask add / remove / identify / unidentify / changename / set secure / users.conf load / delUser / clock ticks / lookups, every lookup answers exactly what the cache-free, effect-free recomputation on the current records answers (invariant: a cached hostmask is matched by no other user, reverse entries are complete); an answer id is a user one of whose patterns globs the hostmask or who has an unexpired login from exactly that hostmask, and no second user matches; a secure account needs a pattern; two accounts never own masks with a hostmask in common (invariant of every history; the overlap test hostmaskPatternsIntersect is proved complete and sound); the glob matcher equals a declarative match relation and is invariant under IRC case folding. The register / identify / unidentify / hostmask add / hostmask remove (incl. all) / set secure / changename / whoami commands of the User plugin (converters and guards, password test as a parameter) are modelled on top: no dictionary operation but identify creates a login, the plugin runs identify only after the password test of the account for the exact sender, NICK messages are modelled too (Irc.doNick under supybot.followIdentificationThroughNickChanges, IrcState.doNick): the one other writer of login entries moves a login only from the hostmask of the NICK sender (IRC case rules) to that sender with the new nick. Hence every login entry in every reachable state goes back to an identify WITH THE PASSWORD (ghost log) from that exact hostmask — or, only when the option is on, from a hostmask that the server NICK messages turned into it, each sent by exactly the hostmask reached so far — and a recognised sender matches a registered mask or holds such a login within the timeout. Account names in every reachable state do not look like hostmasks and are pairwise different (ASCII case-insensitively, as getUserId compares them), so a name resolves to the one account that has it (register and changename look the name up first and refuse hostmask-like names; nothing else touches a name). Every command is processed as the live bot does: the sender is remembered, and the lookups of the sender that the bot itself makes before and after (any number) are part of the step; a sender matching two accounts gets nothing executed. The table-like constants (cache size, unWildcard set, minimum, the hostmask regexp shape, rfc1459 table) are re-extracted from /repo on every run; the model is tied to src/ircdb.py / src/ircutils.py by a differential run that compares outcomes, records and both caches, and evaluates the property statement on the implementation.',
- 'level_note': 'Trusted: Lean kernel; axioms propext/Classical.choice/Quot.sound only; the extractors; the correspondence harness. Modelled and proved: getUserId (both paths, cache hit re-validation, duplicate removal incl. the removeHostmask(True) quirk), getUser, setUser, delUser, newUser, invalidateCache, checkHostmask, addAuth, clearAuth, addHostmask, removeHostmask, the plugin call sequences as operations, glob matcher, isUserHostmask. Also inside: the per-message lookups of the sender that the bot makes around a command (counts measured on the live bot, theorems hold for any counts), the nick fallback of the otherUser converter, hostmask remove all, changename to names that look like hostmasks, Irc.doNick login following (with the pruning scan that the preceding lookup runs on the login list, and setUser inside the loop). Not modelled: lazy physical removal of expired logins elsewhere (unobservable: every other read filters by liveness; harness compares live logins); the salted password hash (a parameter pwOk of the plugin model; the driver instantiates it with equality of the secrets, the harness uses the real salted hashes of the bot); str.lower() of account names outside ASCII (hostmask matching is ASCII-only case-insensitive since the re.A repair and modelled exactly for all of Unicode); NICK messages whose prefix is not nick!user@host. The former finding (masks with a common instance accepted) is repaired: setUser uses hostmaskPatternsIntersect, proved complete and sound, and no history leaves two accounts with overlapping masks.',
+ 'level_note': 'Trusted: Lean kernel; axioms propext/Classical.choice/Quot.sound only; the extractors; the correspondence harness. Modelled and proved: getUserId (both paths, cache hit re-validation, duplicate removal incl. the removeHostmask(True) quirk), getUser, setUser, delUser, newUser, invalidateCache, checkHostmask, addAuth, clearAuth, addHostmask, removeHostmask, the plugin call sequences as operations, glob matcher, isUserHostmask. Also inside: the per-message lookups of the sender that the bot makes around a command (counts measured on the live bot, theorems hold for any counts), the nick fallback of the otherUser converter, hostmask remove all, changename to names that look like hostmasks, Irc.doNick login following (with the pruning scan that the preceding lookup runs on the login list, and setUser inside the loop). Not modelled: lazy physical removal of expired logins elsewhere (unobservable: every other read filters by liveness; harness compares live logins; before IrcUser.clearAuth() alone, whose cache invalidations go by the entries physically left, the harness reports them and the model accepts only expired entries as gone — Op.pruned); the salted password hash (a parameter pwOk of the plugin model; the driver instantiates it with equality of the secrets, the harness uses the real salted hashes of the bot); str.lower() of account names outside ASCII (hostmask matching is ASCII-only case-insensitive since the re.A repair and modelled exactly for all of Unicode); NICK messages whose prefix is not nick!user@host. The former finding (masks with a common instance accepted) is repaired: setUser uses hostmaskPatternsIntersect, proved complete and sound, and no history leaves two accounts with overlapping masks.',
  'technique': 'Lean 4 proof (state-machine invariant over operation histories, refinement to the cache-free lookup) + constant extraction + differential correspondence incl. cache contents',
  'design_ref': 'DESIGN.md §6 C04',
 }
@@ -40,7 +40,8 @@ TRUSTED = ['Lean 4.33.0 kernel; axioms ⊆ {propext, Classical.choice, Quot.soun
            'Python asserts enabled; the clock does not run backwards; timeoutIdentification fixed within a history',
            're.I and str.lower() agree with the ASCII model on generated strings']
 RULE = ('history = reset(timeout), then 5–60 operations over ≤5 accounts drawn from: register, hostmask add/remove, identify, unidentify, '
-        'changename, set secure, users.conf-style load, delUser, tick(dt around the timeout), lookup (hostmasks and names, repeated to warm '
+        'IrcUser.clearAuth() on its own (logout), changename, set secure, users.conf-style load, delUser, tick(dt around the timeout, with '
+        'timeoutIdentification 0 — the default — in two histories of five), lookup (right after every login and every logout; hostmasks and names, repeated to warm '
         'the caches), each followed by the enumeration order of changed hostmask sets and periodically by a dump (records + both caches). '
         'A plugin stream drives the REAL User plugin on the live bot (register, identify with right/wrong passwords from recognised/'
         'unrecognised/secure senders, unidentify, hostmask add/remove, set secure, whoami, ticks): reply kind, records and the ghost log of '
